@@ -568,6 +568,90 @@ func rulePublish(c *Ctx) {
 			"the background analysis is started without a version number obtained synchronously in the handler: the goroutine cannot tell whether its text is still the latest")
 	}
 	c.census("C-PUBLISH", "go statements starting analyses that publish", nGo, 2)
+	// C13-SKIP: a background analysis that was started for the latest version ends with a publication attempt.
+	// A return that no publication attempt precedes may only depend on the request itself (no client, no file
+	// path) - never on state that earlier analyses left behind (a cache of "already analysed" texts).
+	attempts := func(f *ssa.Function) []ssa.Instruction {
+		var out []ssa.Instruction
+		for _, b := range f.Blocks {
+			for _, ins := range b.Instrs {
+				call, ok := ins.(ssa.CallInstruction)
+				if !ok {
+					continue
+				}
+				if isPublishCall(call) {
+					out = append(out, ins)
+					continue
+				}
+				reaches := false
+				for _, cal := range ci.calleesOf(call) {
+					if inModule(cal) && reachesPublish(cal) {
+						reaches = true
+					}
+				}
+				for _, a := range call.Common().Args {
+					if mc, ok := a.(*ssa.MakeClosure); ok {
+						if fn, ok := mc.Fn.(*ssa.Function); ok && reachesPublish(fn) {
+							reaches = true
+						}
+					}
+				}
+				if reaches {
+					out = append(out, ins)
+				}
+			}
+		}
+		return out
+	}
+	nRet := 0
+	for _, root := range ci.goRoots {
+		if !reachesPublish(root) {
+			continue
+		}
+		// the function that holds the analysis: the root, or the module function it only forwards to
+		f := root
+		att := attempts(f)
+		for _, b := range f.Blocks {
+			for _, ins := range b.Instrs {
+				ret, ok := ins.(*ssa.Return)
+				if !ok {
+					continue
+				}
+				nRet++
+				preceded := false
+				for _, a := range att {
+					if a.Block() == b || a.Block().Dominates(b) {
+						preceded = true
+					}
+				}
+				if preceded {
+					c.ok("C13-SKIP", funcName(f), fmt.Sprintf("return #%d ends with a publication attempt", nRet), ret.Pos(), "a publication attempt dominates this return")
+					continue
+				}
+				bad := ""
+				for _, cc := range controlCondsPol(b) {
+					for v := range backSlice(cc.Cond) {
+						switch x := v.(type) {
+						case *ssa.Call:
+							if op, ok := syncMapOp(x); ok {
+								bad = "a sync.Map." + op + " on server state"
+							}
+						case *ssa.Lookup:
+							if ld, ok := x.X.(*ssa.UnOp); ok {
+								if field, _, ok := rootSharedField(ld.X); ok {
+									bad = "a lookup in " + field
+								}
+							}
+						}
+					}
+				}
+				c.check(bad == "", "C13-SKIP", funcName(f), fmt.Sprintf("return #%d without publication depends on the request only", nRet), ret.Pos(),
+					"the analysis ends without publishing only for reasons that lie in the request itself (no client, no file path)",
+					"a background analysis can end without a publication attempt depending on "+bad+" (state left behind by earlier analyses): the analysis of the latest version can be the one that is skipped, and superseded diagnostics stay published")
+			}
+		}
+	}
+	c.census("C13-SKIP", "returns of background analyses that publish", nRet, 2)
 }
 
 // bumpsVersionUnderLock: function increments (or stores into) a map element / field of shared state while holding a lock.
